@@ -16,6 +16,8 @@ AREAS = {
     'oracle': 'src/oracle.rs (the Oracle-style Date: whole seconds; add_days / sub_date; delegation to Timestamp; conversions)',
     'parse': 'src/format.rs, PARSING side only (Formatter::parse_internal and its helpers: number / name parsing, AM/PM and 12-hour handling, duplicates detection, year completion, the final TryFrom<NaiveDateTime> assembly impls at the end of the file and in the type files)',
     'format': 'src/format.rs, FORMATTING side and the picture lexer only (FormatParser::next and its parse_* helpers, Formatter::try_new, Formatter::format_internal / format and the write helpers, the name tables)',
+    'numtext': 'src/format.rs, the numeric text helpers ONLY: `write_u32` (zero-padded decimal output of a number), `NaiveDateTime::fraction` (the fractional-second digits for the FF1..FF9 tokens), and the free functions `parse_number`, `eat_digits` and `parse_fraction` (reading digits, including fractional seconds with rounding)',
+    'cmp': 'the cross-type comparison impls: `PartialEq` / `PartialOrd` between Time and IntervalDT (src/time.rs, src/interval.rs), between Date and Timestamp (src/date.rs, src/timestamp.rs) and, with feature `oracle`, between the Oracle-style Date and Timestamp / Date (src/oracle.rs)',
     'serde': 'src/serialize.rs (or wherever the serde impls live) and src/lib.rs / src/error.rs / src/util.rs (serde impls, static formatters, the small stack buffer types)',
 }
 
